@@ -12,6 +12,7 @@ use crate::verif_support::*;
 /// Every byte either decodes or is rejected; a decoded byte re-encodes to the same function code,
 /// and - for requests - to the identical byte.  The bit layout equals the reference model.
 #[kani::proof]
+#[kani::unwind(4)]
 fn c09_fc_all_bytes() {
     let b: u8 = kani::any();
     match FunctionCode::from_byte(b) {
@@ -39,6 +40,7 @@ fn c09_fc_all_bytes() {
 
 /// Every function code value round-trips through its byte.
 #[kani::proof]
+#[kani::unwind(4)]
 fn c09_fc_all_values() {
     let fc = any_function_code();
     let b = fc.to_byte();
@@ -509,6 +511,7 @@ fn c10_single_byte_corruption_t() {
 
 /// Short confirmation: one byte, any substitution is not decoded as another telegram.
 #[kani::proof]
+#[kani::unwind(8)]
 fn c10_sc_corruption() {
     let val: u8 = kani::any();
     kani::assume(val != SC);
